@@ -6,6 +6,7 @@ import re
 
 from ..astutil import attr_path, call_name, walk, src, ancestors
 from ..consteval import UNKNOWN, ClassRef
+from ..astutil import clone as _clone
 from ..framework import rule
 from ..guards import branch_outcome
 from ..linexpr import Lin, atom_name, cmp_norm, lin
@@ -672,10 +673,10 @@ def _inline_locals(func, expr, depth=0):
 
         def visit_Name(self, n):
             if isinstance(n.ctx, ast.Load) and counts.get(n.id) == 1 and self.d < 6:
-                return Sub(self.d + 1).visit(copy.deepcopy(single[n.id]))
+                return Sub(self.d + 1).visit(_clone(single[n.id]))
             return n
 
-    return ast.fix_missing_locations(Sub(depth).visit(copy.deepcopy(expr)))
+    return ast.fix_missing_locations(Sub(depth).visit(_clone(expr)))
 
 
 def _record_decisions(ctx):
@@ -831,14 +832,22 @@ def d18_10(ctx):
                 a = R.reaching(n.id, self.line)
                 if a is not None and not (isinstance(a.value, ast.Call) and isinstance(a.value.func, ast.Attribute) and a.value.func.attr in ("fullmatch", "match", "search")):
                     s2 = Sub(self.w, a.lineno, self.depth + 1)
-                    r = s2.visit(copy.deepcopy(a.value))
+                    r = s2.visit(_clone(a.value))
                     self.unknown = self.unknown or s2.unknown
                     return r
             return n
 
+    _memo = {}
+
     def fold(e, w, line):
+        mk = (id(e), tuple(sorted((k, repr(v)) for k, v in w.items())))
+        if mk not in _memo:
+            _memo[mk] = _fold(e, w, line)
+        return _memo[mk]
+
+    def _fold(e, w, line):
         s_ = Sub(w, line)
-        e2 = ast.fix_missing_locations(s_.visit(copy.deepcopy(e)))
+        e2 = ast.fix_missing_locations(s_.visit(_clone(e)))
         if s_.unknown:
             return UNKNOWN
         return ctx.folder.eval(e2, pt.module)
@@ -854,13 +863,14 @@ def d18_10(ctx):
         up, lo = witness_env(rx, n, str.upper), witness_env(rx, n, str.lower)
         groups = sorted(up)
         diffs, folded = [], 0
+        items = [(ctx.folder.eval(k, pt.module), v) for k, v in zip(n.ast.value.keys, n.ast.value.values) if k is not None]
+        tests = [(f"test `{src(t.ast)[:50]}`", t.ast) for t in R.g.nodes if t.kind == "test" and t.ast is not None and any(R.g.branch_dominates(t, br, n) for br in (True, False))]
+        # only the groups an expression mentions matter for it: fold each expression once per distinct binding of those groups
         for combo in itertools.islice(itertools.product(*[range(len(up[g_])) for g_ in groups]), 64):
             wu = {g_: up[g_][i] for g_, i in zip(groups, combo)}
             wl = {g_: lo[g_][i] for g_, i in zip(groups, combo)}
             if wu == wl:
                 continue
-            items = [(ctx.folder.eval(k, pt.module), v) for k, v in zip(n.ast.value.keys, n.ast.value.values) if k is not None]
-            tests = [(f"test `{src(t.ast)[:50]}`", t.ast) for t in R.g.nodes if t.kind == "test" and t.ast is not None and any(R.g.branch_dominates(t, br, n) for br in (True, False))]
             for name, e in items + tests:
                 if name == "tag":
                     continue
